@@ -1,7 +1,8 @@
 import LachesisVerif.Model.PosCanon
+import LachesisVerif.Props.C11
 /-! Helper lemmas for C12 (canonical order, builder invariants). -/
 namespace Proofs.PosCanon
-open Model.Pos Model.PosCanon
+open Model.Pos Model.PosCanon Model.Enc
 
 /-- the canonical order as a relation -/
 def Sorted (l : Pairs) : Prop := l.Pairwise (fun a b => less a b = true)
@@ -12,7 +13,6 @@ theorem less_iff (a b : Nat × Nat) : less a b = true ↔ (a.2 > b.2 ∨ (a.2 = 
   by_cases h : a.2 = b.2
   · simp [h]
   · simp [h]
-    omega
 
 theorem less_asymm {a b : Nat × Nat} (h : less a b = true) : less b a = false := by
   have := (less_iff a b).1 h
@@ -110,5 +110,498 @@ theorem sortPairs_sorted (b : Pairs) (hnd : b.Nodup) : Sorted (sortPairs b) := b
     have h := List.nodup_cons.1 hnd
     show Sorted (insertSorted x (sortPairs xs))
     exact insertSorted_sorted x _ (ih h.2) (fun hm => h.1 ((sortPairs_perm xs).subset hm))
+
+/-- the builder written with the regenerated zero test is C11's `set` -/
+theorem setK_eq_set (b : Pairs) (id w : Nat) : setK b id w = Model.Pos.set b id w := by
+  unfold setK Model.Pos.set Gen.PosBig.setDeletes
+  by_cases h : w = 0 <;> simp [h]
+
+/-- builder invariant: a Go map — distinct ids — that never stores a zero weight -/
+structure BInv (b : Pairs) : Prop where
+  nodup : (b.map (·.1)).Nodup
+  nonzero : ∀ p ∈ b, p.2 ≠ 0
+
+theorem nodup_of_binv {b : Pairs} (h : BInv b) : b.Nodup := by
+  have := h.nodup
+  generalize b = l at this
+  induction l with
+  | nil => exact List.nodup_nil
+  | cons p ps ih =>
+    simp only [List.map_cons, List.nodup_cons] at this ⊢
+    exact ⟨fun hm => this.1 (List.mem_map_of_mem hm), ih this.2⟩
+
+theorem getW_cons (p : Nat × Nat) (ps : Pairs) (id : Nat) :
+    getW (p :: ps) id = if p.1 = id then p.2 else getW ps id := by
+  unfold getW
+  by_cases h : p.1 = id
+  · simp [h]
+  · simp [h]
+
+theorem getW_filter_eq (b : Pairs) (id : Nat) : getW (b.filter (fun p => p.1 != id)) id = 0 := by
+  induction b with
+  | nil => rfl
+  | cons p ps ih =>
+    by_cases h : p.1 = id
+    · simp [h]; exact ih
+    · have : (p.1 != id) = true := by simp [h]
+      rw [List.filter_cons, if_pos this, getW_cons, if_neg h]; exact ih
+
+theorem getW_filter_ne (b : Pairs) (id id' : Nat) (hne : id' ≠ id) :
+    getW (b.filter (fun p => p.1 != id)) id' = getW b id' := by
+  induction b with
+  | nil => rfl
+  | cons p ps ih =>
+    by_cases h : p.1 = id
+    · have h' : ¬ p.1 = id' := fun e => hne (e.symm.trans h)
+      have : (p.1 != id) = false := by simp [h]
+      rw [List.filter_cons, this, getW_cons, if_neg h']; simpa using ih
+    · have : (p.1 != id) = true := by simp [h]
+      rw [List.filter_cons, if_pos this, getW_cons, getW_cons, ih]
+
+theorem getW_append_single (f : Pairs) (id w id' : Nat) (hf : ∀ p ∈ f, p.1 ≠ id) :
+    getW (f ++ [(id, w)]) id' = if id' = id then w else getW f id' := by
+  induction f with
+  | nil =>
+    rw [List.nil_append, getW_cons]
+    by_cases h : id = id'
+    · simp [h]
+    · have : ¬ id' = id := fun e => h e.symm
+      simp [h, this, getW]
+  | cons p ps ih =>
+    have hp := hf p List.mem_cons_self
+    rw [List.cons_append, getW_cons, getW_cons, ih (fun q hq => hf q (List.mem_cons_of_mem _ hq))]
+    by_cases h : p.1 = id'
+    · have : ¬ id' = id := fun e => hp (h.trans e)
+      simp [h, this]
+    · simp [h]
+
+theorem find_filter_none (b : Pairs) (id : Nat) :
+    (b.filter (fun p => p.1 != id)).find? (fun p => p.1 == id) = none := by
+  rw [List.find?_eq_none]
+  intro x hx
+  have := (List.mem_filter.1 hx).2
+  simpa using this
+
+/-- `Set` is a map update: afterwards `id` reads `w`, every other id reads as before. -/
+theorem getW_setK (b : Pairs) (id w id' : Nat) :
+    getW (setK b id w) id' = if id' = id then w else getW b id' := by
+  unfold setK Gen.PosBig.setDeletes
+  by_cases hw : w = 0
+  · simp only [hw, decide_true, if_true]
+    by_cases h : id' = id
+    · rw [if_pos h, h]; exact getW_filter_eq b id
+    · rw [if_neg h]; exact getW_filter_ne b id id' h
+  · simp only [hw, decide_false, Bool.false_eq_true, if_false]
+    rw [getW_append_single]
+    · by_cases h : id' = id
+      · simp [h]
+      · simp only [h, if_false]; exact getW_filter_ne b id id' h
+    · intro p hp
+      have := (List.mem_filter.1 hp).2
+      simpa using this
+
+theorem binv_filter {b : Pairs} (h : BInv b) (id : Nat) : BInv (b.filter (fun p => p.1 != id)) := by
+  constructor
+  · have hs : ((b.filter (fun p => p.1 != id)).map (·.1)).Sublist (b.map (·.1)) :=
+      (List.filter_sublist).map _
+    exact hs.nodup h.nodup
+  · intro p hp; exact h.nonzero p (List.mem_filter.1 hp).1
+
+theorem binv_setK {b : Pairs} (h : BInv b) (id w : Nat) : BInv (setK b id w) := by
+  unfold setK Gen.PosBig.setDeletes
+  by_cases hw : w = 0
+  · simp only [hw, decide_true, if_true]; exact binv_filter h id
+  · simp only [hw, decide_false, Bool.false_eq_true, if_false]
+    have hf := binv_filter h id
+    constructor
+    · rw [List.map_append, List.nodup_append]
+      refine ⟨hf.nodup, by simp, ?_⟩
+      intro a ha c hc
+      simp at hc
+      subst hc
+      rcases List.mem_map.1 ha with ⟨p, hp, rfl⟩
+      have := (List.mem_filter.1 hp).2
+      simpa using this
+    · intro p hp
+      rcases List.mem_append.1 hp with hp | hp
+      · exact hf.nonzero p hp
+      · simp at hp; subst hp; exact hw
+
+theorem binv_nil : BInv [] := ⟨by simp, by simp⟩
+
+theorem binv_applySets_from (ops : List (Nat × Nat)) (b : Pairs) (h : BInv b) :
+    BInv (ops.foldl (fun b p => setK b p.1 p.2) b) := by
+  induction ops generalizing b with
+  | nil => exact h
+  | cons o os ih => exact ih _ (binv_setK h o.1 o.2)
+
+theorem binv_applySets (ops : List (Nat × Nat)) : BInv (applySets ops) :=
+  binv_applySets_from ops [] binv_nil
+
+theorem getW_foldl (ops : List (Nat × Nat)) (b : Pairs) (id : Nat) :
+    getW (ops.foldl (fun b p => setK b p.1 p.2) b) id =
+      ops.foldl (fun w p => if p.1 = id then p.2 else w) (getW b id) := by
+  induction ops generalizing b with
+  | nil => rfl
+  | cons o os ih =>
+    simp only [List.foldl_cons]
+    rw [ih, getW_setK]
+    by_cases h : o.1 = id
+    · simp [h]
+    · have : ¬ id = o.1 := fun e => h e.symm
+      simp [h, this]
+
+/-- the builder denotes the map "last weight set" -/
+theorem getW_applySets (ops : List (Nat × Nat)) (id : Nat) : getW (applySets ops) id = finalW ops id :=
+  getW_foldl ops [] id
+
+theorem mem_iff_getW {b : Pairs} (h : BInv b) (id w : Nat) : (id, w) ∈ b ↔ w ≠ 0 ∧ getW b id = w := by
+  induction b with
+  | nil => simp [getW]; intro h1 h2; exact h1 h2.symm
+  | cons p ps ih =>
+    have hps : BInv ps := ⟨(List.nodup_cons.1 h.nodup).2, fun q hq => h.nonzero q (List.mem_cons_of_mem _ hq)⟩
+    have hp0 := h.nonzero p List.mem_cons_self
+    have hnot : p.1 ∉ ps.map (·.1) := (List.nodup_cons.1 h.nodup).1
+    rw [getW_cons, List.mem_cons]
+    by_cases he : p.1 = id
+    · rw [if_pos he]
+      constructor
+      · rintro (h1 | h1)
+        · rw [← h1] at hp0 ⊢; exact ⟨hp0, rfl⟩
+        · exact absurd (List.mem_map_of_mem (f := (·.1)) h1) (he ▸ hnot)
+      · rintro ⟨_, h2⟩
+        left; exact Prod.ext he.symm h2.symm
+    · rw [if_neg he, ← ih hps]
+      constructor
+      · rintro (h1 | h1)
+        · exact absurd (congrArg Prod.fst h1).symm he
+        · exact h1
+      · exact Or.inr
+
+/-- two builders denoting the same map hold the same pairs, up to order -/
+theorem perm_of_same_getW {b₁ b₂ : Pairs} (h₁ : BInv b₁) (h₂ : BInv b₂)
+    (h : ∀ id, getW b₁ id = getW b₂ id) : b₁.Perm b₂ := by
+  rw [List.perm_ext_iff_of_nodup (nodup_of_binv h₁) (nodup_of_binv h₂)]
+  intro ⟨id, w⟩
+  rw [mem_iff_getW h₁, mem_iff_getW h₂, h id]
+
+/-! ### RLP round trip -/
+
+theorem beBytes_length (k n : Nat) : (beBytes k n).length = k := by
+  induction k with
+  | zero => rfl
+  | succ k ih => simp [beBytes, ih]
+
+theorem foldl_be (k n a : Nat) :
+    (beBytes k n).foldl (fun a b => a * 256 + b) a = a * 256 ^ k + n % 256 ^ k := by
+  induction k generalizing a with
+  | zero => simp [beBytes, Nat.mod_one]
+  | succ k ih =>
+    simp only [beBytes, List.foldl_cons, ih]
+    rw [Nat.mod_pow_succ, Nat.pow_succ]
+    rw [Nat.add_mul, Nat.mul_assoc, Nat.mul_comm 256 (256 ^ k), Nat.mul_comm (n / 256 ^ k % 256)]
+    omega
+
+theorem be_roundtrip (k n : Nat) (h : n < 256 ^ k) : beVal (beBytes k n) = n := by
+  unfold beVal
+  rw [foldl_be, Nat.mod_eq_of_lt h]
+  simp
+
+/-- the minimal big-endian form has no leading zero byte -/
+theorem beBytes_head (k n : Nat) (hk : 1 ≤ k) (hlo : 256 ^ (k - 1) ≤ n) (hhi : n < 256 ^ k) :
+    (beBytes k n ++ rest).headD 0 ≠ 0 := by
+  cases k with
+  | zero => omega
+  | succ k =>
+    simp only [beBytes, List.cons_append, List.headD_cons]
+    simp only [Nat.add_sub_cancel] at hlo
+    have hpos : 0 < 256 ^ k := Nat.pow_pos (by decide)
+    have h1 : 1 ≤ n / 256 ^ k := (Nat.le_div_iff_mul_le hpos).2 (by omega)
+    have h2 : n / 256 ^ k < 256 := (Nat.div_lt_iff_lt_mul hpos).2 (by rw [Nat.pow_succ, Nat.mul_comm] at hhi; exact hhi)
+    omega
+
+theorem byteLen_spec (n : Nat) (h0 : 0 < n) (h : n < 18446744073709551616) :
+    256 ^ (byteLen n - 1) ≤ n ∧ n < 256 ^ byteLen n ∧ 1 ≤ byteLen n ∧ byteLen n ≤ 8 := by
+  unfold byteLen
+  repeat' split
+  all_goals (refine ⟨?_, ?_, ?_, ?_⟩ <;> simp <;> omega)
+
+theorem byteLen_le4 (n : Nat) (h : n < 4294967296) : byteLen n ≤ 4 := by
+  unfold byteLen
+  repeat' split
+  all_goals omega
+
+theorem take_append_be (k n : Nat) (rest : Bytes) : (beBytes k n ++ rest).take k = beBytes k n := by
+  have := beBytes_length k n
+  rw [List.take_append_of_le_length (by omega), List.take_of_length_le (by omega)]
+
+theorem drop_append_be (k n : Nat) (rest : Bytes) : (beBytes k n ++ rest).drop k = rest := by
+  have := beBytes_length k n
+  rw [List.drop_append_of_le_length (by omega), List.drop_of_length_le (by omega), List.nil_append]
+
+theorem decUint_encUint (n : Nat) (h : n < 4294967296) (rest : Bytes) :
+    decUint (encUint n ++ rest) = some (n, rest) := by
+  unfold encUint
+  by_cases h0 : n = 0
+  · subst h0; simp [decUint, beVal]
+  · rw [if_neg h0]
+    by_cases h1 : n < 128
+    · rw [if_pos h1]; simp [decUint, h1, h0]
+    · rw [if_neg h1]
+      have hs := byteLen_spec n (by omega) (by omega)
+      have h4 := byteLen_le4 n h
+      generalize hk : byteLen n = k at hs h4
+      have hhead := beBytes_head (rest := rest) k n hs.2.2.1 hs.1 hs.2.1
+      have hlen := beBytes_length k n
+      simp only [List.cons_append, decUint]
+      rw [if_neg (by omega), if_pos (by omega)]
+      simp only [Nat.add_sub_cancel_left]
+      rw [if_neg (by omega), if_neg (by rw [List.length_append]; omega)]
+      rw [take_append_be, drop_append_be, be_roundtrip k n hs.2.1]
+      have hb : ((beBytes k n ++ rest).headD 0 == 0) = false := by simpa using hhead
+      have hv : decide (n < 128) = false := by simpa using h1
+      rw [hb, hv]
+      simp
+
+theorem decListHeader_enc (len : Nat) (h : len < 18446744073709551616) (rest : Bytes) :
+    decListHeader (encListHeader len ++ rest) = some (len, rest) := by
+  unfold encListHeader
+  by_cases h1 : len < 56
+  · rw [if_pos h1]
+    simp only [List.cons_append, List.nil_append, decListHeader]
+    rw [if_neg (by omega), if_pos (by omega)]
+    simp
+  · rw [if_neg h1]
+    have hs := byteLen_spec len (by omega) h
+    generalize hk : byteLen len = k at hs
+    have hhead := beBytes_head (rest := rest) k len hs.2.2.1 hs.1 hs.2.1
+    have hlen := beBytes_length k len
+    simp only [List.cons_append, decListHeader]
+    rw [if_neg (by omega), if_neg (by omega)]
+    simp only [Nat.add_sub_cancel_left]
+    rw [if_neg (by rw [List.length_append]; omega)]
+    rw [take_append_be, drop_append_be, be_roundtrip k len hs.2.1]
+    have hb : ((beBytes k len ++ rest).headD 0 == 0) = false := by simpa using hhead
+    have hv : decide (len < 56) = false := by simpa using h1
+    rw [hb, hv]
+    simp
+
+theorem encUint_length (n : Nat) (h : n < 4294967296) : 1 ≤ (encUint n).length ∧ (encUint n).length ≤ 5 := by
+  unfold encUint
+  have := byteLen_le4 n h
+  split
+  · simp
+  · split
+    · simp
+    · simp [beBytes_length]; omega
+
+theorem decPair_enc (p : Nat × Nat) (h1 : p.1 < 4294967296) (h2 : p.2 < 4294967296) :
+    decPair (encUint p.1 ++ encUint p.2) = some p := by
+  unfold decPair
+  rw [decUint_encUint p.1 h1]
+  simp only
+  have := decUint_encUint p.2 h2 []
+  rw [List.append_nil] at this
+  rw [this]
+  simp
+
+theorem encPair_length (p : Nat × Nat) (h1 : p.1 < 4294967296) (h2 : p.2 < 4294967296) :
+    1 ≤ (encPair p).length ∧ (encPair p).length ≤ 11 := by
+  have a := encUint_length p.1 h1
+  have b := encUint_length p.2 h2
+  unfold encPair encListHeader
+  simp only [List.length_append]
+  rw [if_pos (by omega)]
+  simp; omega
+
+theorem decItems_ne_nil (fuel : Nat) (l : Bytes) (h : l ≠ []) :
+    decItems (fuel + 1) l =
+      match decListHeader l with
+      | none => none
+      | some (len, r) =>
+        if r.length < len then none
+        else
+          match decPair (r.take len), decItems fuel (r.drop len) with
+          | some p, some ps => some (p :: ps)
+          | _, _ => none := by
+  cases l with
+  | nil => exact absurd rfl h
+  | cons b bs => rfl
+
+def Fields32 (ps : List (Nat × Nat)) : Prop := ∀ p ∈ ps, p.1 < 4294967296 ∧ p.2 < 4294967296
+
+theorem decItems_enc (ps : List (Nat × Nat)) (hf : Fields32 ps) (fuel : Nat) (hfuel : (encItems ps).length ≤ fuel) :
+    decItems fuel (encItems ps) = some ps := by
+  induction ps generalizing fuel with
+  | nil => cases fuel <;> rfl
+  | cons p ps ih =>
+    have hp := hf p List.mem_cons_self
+    have hl := encPair_length p hp.1 hp.2
+    have hu1 := encUint_length p.1 hp.1
+    have hu2 := encUint_length p.2 hp.2
+    have e : encItems (p :: ps) = encPair p ++ encItems ps := by simp [encItems]
+    rw [e] at hfuel ⊢
+    rw [List.length_append] at hfuel
+    cases fuel with
+    | zero => omega
+    | succ fuel =>
+      rw [decItems_ne_nil _ _ (by intro h; have := congrArg List.length h; simp only [List.length_append, List.length_nil] at this; omega)]
+      have hdec : decListHeader (encPair p ++ encItems ps) =
+          some ((encUint p.1 ++ encUint p.2).length, (encUint p.1 ++ encUint p.2) ++ encItems ps) := by
+        unfold encPair
+        simp only [List.append_assoc]
+        have := decListHeader_enc (encUint p.1 ++ encUint p.2).length (by rw [List.length_append]; omega)
+          (encUint p.1 ++ (encUint p.2 ++ encItems ps))
+        simpa [List.append_assoc] using this
+      rw [hdec]
+      simp only
+      rw [if_neg (by rw [List.length_append]; omega)]
+      rw [List.take_append_of_le_length (Nat.le_refl _), List.take_of_length_le (Nat.le_refl _)]
+      rw [List.drop_append_of_le_length (Nat.le_refl _), List.drop_of_length_le (Nat.le_refl _), List.nil_append]
+      rw [decPair_enc p hp.1 hp.2, ih (fun q hq => hf q (List.mem_cons_of_mem _ hq)) fuel (by omega)]
+
+theorem encItems_length_le (ps : List (Nat × Nat)) (hf : Fields32 ps) : (encItems ps).length ≤ 11 * ps.length := by
+  induction ps with
+  | nil => simp [encItems]
+  | cons p ps ih =>
+    have hp := hf p List.mem_cons_self
+    have := encPair_length p hp.1 hp.2
+    have := ih (fun q hq => hf q (List.mem_cons_of_mem _ hq))
+    have e : encItems (p :: ps) = encPair p ++ encItems ps := by simp [encItems]
+    rw [e, List.length_append, List.length_cons]
+    omega
+
+theorem decPairs_enc (ps : List (Nat × Nat)) (hf : Fields32 ps) (hlen : (encItems ps).length < 18446744073709551616) :
+    decPairs (encPairs ps) = some ps := by
+  unfold decPairs encPairs
+  rw [decListHeader_enc _ hlen]
+  simp only
+  rw [if_neg (by simp)]
+  exact decItems_enc ps hf _ (Nat.le_refl _)
+
+/-! ### builders filled from duplicate-free call lists; totality of `build` -/
+
+theorem filter_ne_self (acc : Pairs) (id : Nat) (h : id ∉ acc.map (·.1)) :
+    acc.filter (fun p => p.1 != id) = acc := by
+  rw [List.filter_eq_self]
+  intro p hp
+  have : p.1 ≠ id := fun e => h (e ▸ List.mem_map_of_mem hp)
+  simpa using this
+
+/-- With distinct ids every `Set` just appends (or, for a zero weight, does nothing). -/
+theorem foldl_setK_nodup (l acc : Pairs) (h : ((acc ++ l).map (·.1)).Nodup) :
+    l.foldl (fun b p => setK b p.1 p.2) acc = acc ++ l.filter (fun p => p.2 != 0) := by
+  induction l generalizing acc with
+  | nil => simp
+  | cons p ps ih =>
+    have hnot : p.1 ∉ acc.map (·.1) := by
+      rw [List.map_append, List.nodup_append] at h
+      intro hm
+      exact h.2.2 _ hm _ (by simp) rfl
+    simp only [List.foldl_cons]
+    have hs : setK acc p.1 p.2 = if p.2 = 0 then acc else acc ++ [p] := by
+      unfold setK Gen.PosBig.setDeletes
+      rw [filter_ne_self acc p.1 hnot]
+      by_cases h0 : p.2 = 0 <;> simp [h0]
+    rw [hs]
+    by_cases h0 : p.2 = 0
+    · rw [if_pos h0, ih acc (by
+        rw [List.map_append] at h ⊢
+        rw [List.map_cons] at h
+        exact (List.nodup_append.1 h).1 |> fun ha => List.nodup_append.2 ⟨ha, (List.nodup_cons.1 (List.nodup_append.1 h).2.1).2,
+          fun a ha' b hb => (List.nodup_append.1 h).2.2 a ha' b (List.mem_cons_of_mem _ hb)⟩)]
+      have : (p.2 != 0) = false := by simp [h0]
+      rw [List.filter_cons, this]; rfl
+    · rw [if_neg h0, ih (acc ++ [p]) (by simpa [List.append_assoc] using h)]
+      have : (p.2 != 0) = true := by simp [h0]
+      rw [List.filter_cons, if_pos this]; simp
+
+theorem applySets_nodup (l : Pairs) (h : (l.map (·.1)).Nodup) :
+    applySets l = l.filter (fun p => p.2 != 0) := by
+  unfold applySets
+  rw [foldl_setK_nodup l [] (by simpa using h)]; simp
+
+/-- re-inserting the content of a builder reproduces it -/
+theorem applySets_self (l : Pairs) (h : BInv l) : applySets l = l := by
+  rw [applySets_nodup l h.nodup, List.filter_eq_self]
+  intro p hp; simpa using h.nonzero p hp
+
+theorem binv_perm {a b : Pairs} (hp : a.Perm b) (h : BInv b) : BInv a :=
+  ⟨((hp.map (·.1)).nodup_iff).2 h.nodup, fun p hm => h.nonzero p (hp.subset hm)⟩
+
+theorem sumChecked_ok (ps : Pairs) (t : Nat) (h : t + (ps.map (·.2)).sum < 4294967296) :
+    sumChecked ps t = some (t + (ps.map (·.2)).sum) := by
+  induction ps generalizing t with
+  | nil => simp [sumChecked]
+  | cons p ps ih =>
+    simp only [List.map_cons, List.sum_cons] at h ⊢
+    have hm : (t + p.2) % 4294967296 = t + p.2 := Nat.mod_eq_of_lt (by omega)
+    have hw : Gen.Pos.sumWrapped (t + p.2) t = false := by unfold Gen.Pos.sumWrapped; simp
+    simp only [sumChecked, hm, hw]
+    rw [ih (t + p.2) (by omega)]
+    simp only [Bool.false_eq_true, if_false]
+    congr 1; omega
+
+/-- `build` succeeds exactly on the totals within the weight limit -/
+theorem build_ok (b : Pairs) (h : (b.map (·.2)).sum ≤ 2147483647) :
+    build b = some { sorted := sortPairs b, total := (b.map (·.2)).sum } := by
+  have hs : ((sortPairs b).map (·.2)).sum = (b.map (·.2)).sum := ((sortPairs_perm b).map (·.2)).sum_nat
+  unfold build total
+  simp only
+  rw [sumChecked_ok _ 0 (by omega), Nat.zero_add, hs]
+  have : Gen.Pos.overLimit (b.map (·.2)).sum = false := (C11.limit_is_maxint32 _).2 h
+  simp [this]
+
+theorem length_le_sum (l : List Nat) (h : ∀ x ∈ l, x ≠ 0) : l.length ≤ l.sum := by
+  induction l with
+  | nil => simp
+  | cons x xs ih =>
+    have := h x List.mem_cons_self
+    have := ih (fun y hy => h y (List.mem_cons_of_mem _ hy))
+    simp only [List.length_cons, List.sum_cons]; omega
+
+theorem sum_filter_ne_zero (l : Pairs) : ((l.filter (fun p => p.2 != 0)).map (·.2)).sum = (l.map (·.2)).sum := by
+  induction l with
+  | nil => rfl
+  | cons p ps ih =>
+    by_cases h : p.2 = 0
+    · have : (p.2 != 0) = false := by simp [h]
+      rw [List.filter_cons, this]; simp [h, ih]
+    · have : (p.2 != 0) = true := by simp [h]
+      rw [List.filter_cons, if_pos this]; simp [ih]
+
+/-! ### arithmetic of the big builder -/
+
+theorem bitLen_spec (n : Nat) : n < 2 ^ bitLen n ∧ (n ≠ 0 → 2 ^ (bitLen n - 1) ≤ n) := by
+  unfold bitLen
+  by_cases h : n = 0
+  · simp [h]
+  · rw [if_neg h]
+    exact ⟨Nat.lt_log2_self, fun _ => by simpa using Nat.log2_self_le h⟩
+
+theorem sum_div_le (l : List Nat) (d : Nat) : (l.map (· / d)).sum ≤ l.sum / d := by
+  by_cases hd : d = 0
+  · subst hd; simp
+    induction l with
+    | nil => simp
+    | cons x xs ih => simpa using ih
+  · have hpos : 0 < d := Nat.pos_of_ne_zero hd
+    induction l with
+    | nil => simp
+    | cons x xs ih =>
+      simp only [List.map_cons, List.sum_cons]
+      rw [Nat.le_div_iff_mul_le hpos, Nat.add_mul]
+      have h1 := Nat.div_mul_le_self x d
+      have h2 := (Nat.le_div_iff_mul_le hpos).1 ih
+      omega
+
+theorem mem_le_sum (l : List Nat) (x : Nat) (h : x ∈ l) : x ≤ l.sum := by
+  induction l with
+  | nil => cases h
+  | cons y ys ih =>
+    simp only [List.sum_cons]
+    rcases List.mem_cons.1 h with rfl | h
+    · omega
+    · have := ih h; omega
 
 end Proofs.PosCanon
